@@ -321,7 +321,13 @@ class DropOne(Dense_):
         self._row = row
         self._ind = ind
 
-    def __getitem__(self, key: int):
+    @property
+    def headers(self) -> Mapping[str,int]:
+        ind = self._ind
+        return { k:(i if i < ind else i-1) for k,i in self._row.headers.items() if i != ind }
+
+    def __getitem__(self, key: Union[int,str]):
+        if key.__class__ is not int: key = self.headers[key]
         if key >= self._ind: key += 1
         return self._row[key]
 
